@@ -367,6 +367,7 @@ func registerSync(e *Engine) {
 			if in.env != nil && in.env.AfterUnlock != nil {
 				in.env.AfterUnlock(in, ls, write)
 			}
+			in.maybeYield(pos)
 			return nil
 		}
 	}
@@ -402,10 +403,40 @@ func registerSync(e *Engine) {
 			in.goPanicf(pos, "nilderef", "nil *sync.Cond")
 		}
 		cm := p.obj.val.(OpaqueV).Data.(*condModel)
-		if in.env == nil || in.env.CondWait == nil {
-			in.unsupported("sync.Cond.Wait without an environment")
+		hook, ok := in.ghost["env:yield"]
+		if !ok {
+			in.unsupported("sync.Cond.Wait without an environment (verifSetEnv)")
 		}
-		in.env.CondWait(in, caller, cm, pos)
+		// Wait: unlock, sleep until a Broadcast, relock
+		var lp PtrV
+		switch l := cm.locker.(type) {
+		case IfaceV:
+			lp = l.V.(PtrV)
+		case PtrV:
+			lp = l
+		}
+		ls := in.lockOf(lp, pos)
+		if !ls.writer {
+			in.goPanicf(pos, "unlock", "sync: Cond.Wait with unlocked mutex")
+		}
+		ls.writer = false
+		before := cm.broadcasts
+		in.inYield = true
+		in.callValue(caller, hook, nil, pos)
+		in.inYield = false
+		if cm.broadcasts == before {
+			// nobody woke the waiter within the environment's budget: terminal blocked state
+			if bh, ok := in.ghost["env:blocked"]; ok {
+				in.inYield = true
+				in.callValue(caller, bh, nil, pos)
+				in.inYield = false
+			}
+			panic(&pathEnd{kind: "done", msg: "blocked in Cond.Wait"})
+		}
+		if ls.writer || ls.readers > 0 {
+			panic(&pathEnd{kind: "deadlock", msg: "Cond.Wait cannot reacquire " + ls.name})
+		}
+		ls.writer = true
 		return nil
 	})
 	reg("(*sync.Once).Do", func(in *Interp, caller *frame, _ *ssa.Function, args []Value, pos tokenPos) Value {
@@ -434,4 +465,24 @@ type EnvHooks struct {
 	LdbWriteFails func(in *Interp) bool
 	ChanSend    func(in *Interp, c *ChanObj, v Value, pos tokenPos) bool
 	Go          func(in *Interp, fr *frame, fn Value, args []Value, pos tokenPos) bool
+}
+
+// maybeYield runs the harness environment at a point where the executing
+// operation holds no lock at all.
+func (in *Interp) maybeYield(pos tokenPos) {
+	if in.inYield {
+		return
+	}
+	hook, ok := in.ghost["env:yield"]
+	if !ok {
+		return
+	}
+	for _, ls := range in.lockTab {
+		if ls.writer || ls.readers > 0 {
+			return
+		}
+	}
+	in.inYield = true
+	in.callValue(nil, hook, nil, pos)
+	in.inYield = false
 }
